@@ -8,4 +8,4 @@ for c in "$@"; do
   echo "$c exit=$rc $(echo "$out" | grep -m1 '^VIOLATION')"
   echo "$out" | grep -m2 '^  ' | cut -c1-260
 done
-git -C /repo checkout -- . ; git -C /repo status --short
+git -C /repo checkout -- . ; git -C /repo clean -fdq ; git -C /repo status --short
